@@ -31,3 +31,4 @@ Proof. exact (conj std_cfg_256 (conj std_cfg_512 std_cfg_1024)). Qed.
 Print Assumptions C10_decrypt_encrypt.
 Print Assumptions C10_encrypt_decrypt.
 Print Assumptions C10_encrypt_injective.
+Print Assumptions C10_nonvacuous.
